@@ -387,7 +387,7 @@ fn gen_prim(rng: &mut Rng, action: bool, last: bool) -> Value {
         }
         12 => {
             let (arg, known): (&[u8], bool) = *rng.pick(&[(b"root" as &[u8], true), (b"0", true), (b"54321", true), (b"nosuch_user_x", false), (b"", false), (b"\xc3\xa9", false),
-                                                           (b"-5", false), (b"-0", false), (b"5x", false), (b"1.5", false)]);
+                                                           (b"-5", false), (b"-0", false), (b"5x", false), (b"1.5", false), (b"+0", false), (b"+5", false), (b"+54321", false)]);
             json!({"k": "prim", "prim": *rng.pick(&["-user", "-group"]), "kind": "test", "okind": "user", "arg": b(arg.to_vec()), "known": known})
         }
         13 => json!({"k": "prim", "prim": *rng.pick(&["-maxdepth", "-mindepth"]), "kind": "test", "okind": "depthnum",
